@@ -299,6 +299,9 @@ def _parse_rules(c, t, toks, names, pic, oks):
                   f"clock-dependent: {tnt}, characters consumed in [{clo}, {chi}]")
         elif n in (1, 3):
             c.rec('C18', f"parse {t} [{pic}]: {n}-digit year fields are completed with the leading digits of the current year", tnt, '')
+        if n in (1, 2, 3) and tnt and len(e) > 4 and e[4] is not None:
+            c.rec('C18', f"parse {t} [{pic}]: the completion keeps the current year up to its last {n} digit(s) (current year - current year mod {10 ** n})",
+                  e[4] == [10 ** n], f"clock-derived part of the year: multiples of {e[4]}")
         elif n >= 4:
             c.rec('C18', f"parse {t} [{pic}]: a full year never consults the clock", not tnt, '')
     if has_date and not any(x[1] in ('Day', 'DayOfYear') for x in toks):
